@@ -15,9 +15,10 @@
         _lines_iterator_from_replacements, [-at] via original_and_model_iter_from_file_line_iter)
       - impls/types/string_transformer/impl/strip_space.py  (three streaming algorithms)
       - impls/types/string_transformer/impl/case_converters.py, identity.py, sequence.py
-      - impls/types/string_transformer/impl/filter/line_matcher.py ([filter_lines]; the read-ahead
-        interval that limits which lines are read is the subject of C13, theorem C13_filter_exact,
-        and is not repeated here)
+      - impls/types/string_transformer/impl/filter/line_matcher.py (the [TFilter] clause of [eval_t]:
+        every numbered line is offered to the matcher; the read-ahead interval that limits which
+        lines the implementation reads is modelled in Model/Interval.v [filter_impl] (C13) and
+        Proofs/TextOpsFilterC13.v proves that algorithm equal to this clause)
       - type_val_prims/string_source/impls/transformed_string_sources.py, string_source/
         cached_frozen.py, contents/frozen.py: only [may_depend_on_external_resources] before and
         after [freeze()] (fields [s_ext], [s_fext]), which selects the strategy of [equals].
